@@ -373,7 +373,7 @@ func TestLinearizability(t *testing.T) {
 	}, Finalize: func(c linReplay) linReplay {
 		c.History = lastHistory
 		return c
-	}}, vt.N(60, 800))
+	}}, vt.N(60, 4000))
 }
 
 // ---- (2) truncate-before-lock probe ----
@@ -441,7 +441,7 @@ func TestTruncateBeforeLock(t *testing.T) {
 	if rec.Violations() > 0 {
 		t.Skip()
 	}
-	n := vt.N(3, 20)
+	n := vt.N(3, 60)
 	var k int64
 	for i := 0; i < n; i++ {
 		for _, w := range []string{"write", "create", "openfile-trunc"} {
